@@ -670,6 +670,39 @@ func init() {
 		}
 		c.ret(mkRV(&RVal{T: it.mt.Elem(), V: c.m.copyVal(it.order[it.pos].V)}))
 	})
+	setIter := func(name string, key bool) {
+		add("(reflect.Value)."+name, func(c *stubCtx) {
+			r := rvOf(c.args[0])
+			if r == nil || !r.HasAddr || r.RO {
+				c.m.reflectPanic(c, "reflect: reflect.Value."+name+" using unaddressable value")
+				return
+			}
+			p, ok := c.args[1].(Ptr)
+			var it *mapIter
+			if ok && p.C != nil {
+				if o, isO := p.C.E[p.I].(*Opaque); isO && o.Tag == "mapiter" {
+					it = o.X.(*mapIter)
+				}
+			}
+			if it == nil || it.pos < 0 || it.pos >= len(it.order) {
+				c.m.reflectPanic(c, "reflect: "+name+" called before MapIter.Next")
+				return
+			}
+			e := it.order[it.pos]
+			v, t := e.K, it.mt.Key()
+			if !key {
+				v, t = c.m.copyVal(e.V), it.mt.Elem()
+			}
+			if !types.AssignableTo(t, r.T) {
+				c.m.reflectPanic(c, "reflect."+name+": value of type "+t.String()+" is not assignable to type "+r.T.String())
+				return
+			}
+			c.m.storeCell(r.Addr.C, r.Addr.I, v)
+			c.ret(nil)
+		})
+	}
+	setIter("SetIterKey", true)
+	setIter("SetIterValue", false)
 	add("(reflect.Value).Call", func(c *stubCtx) { c.m.reflectCall(c) })
 	add("reflect.FuncOf", func(c *stubCtx) {
 		var ins, outs []*types.Var
